@@ -9,6 +9,7 @@ import (
 	"math/rand"
 	"net/http"
 	"net/url"
+	"reflect"
 	"strings"
 
 	"github.com/flamego/flamego"
@@ -35,6 +36,7 @@ type chainCase struct {
 	NF       []hspec   `json:"notfound_handlers,omitempty"`
 	Action   *hspec    `json:"action,omitempty"`
 	NotFound bool      `json:"request_unrouted,omitempty"` // drive the not-found chain
+	Wrapper  bool      `json:"handler_wrapper,omitempty"`  // Router.HandlerWrapper turns the reflective func(Context,*http.Request) handlers into a FastInvoker
 	Method   string    `json:"method,omitempty"`           // GET (default) | HEAD | POST: for HEAD no body byte is forwarded, yet a body write still counts as "written"
 }
 
@@ -79,6 +81,19 @@ func genHspec(r *rand.Rand) hspec {
 
 func genChainCase(r *rand.Rand) *chainCase {
 	c := &chainCase{}
+	if r.Intn(40) == 0 {
+		// occasionally a long chain (slice-growth boundaries) of mostly passing handlers
+		for i := 3 + r.Intn(14); i > 0; i-- {
+			h := genHspec(r)
+			if r.Intn(3) != 0 {
+				h = hspec{Acts: []act{{Op: "ev"}}, Reflect: r.Intn(2) == 0}
+				if r.Intn(2) == 0 {
+					h.Acts = append(h.Acts, act{Op: "next"})
+				}
+			}
+			c.MW = append(c.MW, h)
+		}
+	}
 	for i := r.Intn(4); i > 0; i-- {
 		c.MW = append(c.MW, genHspec(r))
 	}
@@ -97,6 +112,7 @@ func genChainCase(r *rand.Rand) *chainCase {
 		c.Action = &h
 	}
 	c.Method = []string{"GET", "GET", "GET", "HEAD", "HEAD", "POST"}[r.Intn(6)]
+	c.Wrapper = r.Intn(4) == 0
 	if r.Intn(6) == 0 {
 		c.NotFound = true
 		for i := r.Intn(3); i > 0; i-- {
@@ -139,6 +155,14 @@ func (c *chainCase) method() string {
 }
 
 type chainSentinel struct{ why string }
+
+// c03Fast is what a user's HandlerWrapper turns func(Context, *http.Request) handlers into.
+type c03Fast func(flamego.Context, *http.Request)
+
+func (f c03Fast) Invoke(args []interface{}) ([]reflect.Value, error) {
+	f(args[0].(flamego.Context), args[1].(*http.Request))
+	return nil, nil
+}
 
 // ---- statement-level interpreter ---------------------------------------------
 
@@ -425,6 +449,14 @@ func judgeChain(w *core.W, c *chainCase) {
 	defer cancel()
 	x.cancel = cancel
 	f := flamego.NewWithLogger(io.Discard)
+	if c.Wrapper {
+		f.HandlerWrapper(func(h flamego.Handler) flamego.Handler {
+			if fn, ok := h.(func(flamego.Context, *http.Request)); ok {
+				return c03Fast(fn)
+			}
+			return h
+		})
+	}
 	idx := 0
 	for i := range c.MW {
 		f.Use(x.mk(idx, &c.MW[i]))
